@@ -137,8 +137,10 @@ func (s *Sched) Fire(t *Timer) {
 	if !t.armed {
 		return
 	}
-	if t.when > s.clock && t.when < never {
-		s.clock = t.when
+	// a real timer never fires before its deadline and its handler always runs some time after it: the clock
+	// is one nanosecond past the deadline (code that asks "is now strictly after the deadline" is then due)
+	if t.when >= s.clock && t.when < never {
+		s.clock = t.when + 1
 	}
 	if t.period > 0 {
 		t.when = deadline(s, time.Duration(t.period))
